@@ -9,7 +9,8 @@ bufsize class, binary / text / universal-newline modes, programs of read(n) /
 read() / readline(size) / iteration / readlines and of write / flush / close.
 Faults (the stream seam): _read returns any non-empty prefix (down to 1 byte),
 signals EOF by b"", None or EOFError; _write accepts any non-empty prefix
-(partial writes).
+(partial writes); an explicit flush() may fail once before the stream has taken
+a byte and is then repeated.
 Oracle: every returned piece equals the next bytes of the stream by a small
 reference model (lines end at the first newline or at the size limit; in
 universal-newline mode CR and CRLF terminate a line and come back as LF); the
@@ -111,8 +112,16 @@ class SimStream(BufferedFile):
         self.rpos += n
         return out
 
+    fail_next_write = False
+
     def _write(self, data):
         sim = self.sim
+        if self.fail_next_write:
+            # a transient failure of the stream before it has taken a single byte (eg a timeout on a closed window)
+            self.fail_next_write = False
+            sim.fault("write_fails_before_taking_anything")
+            import socket
+            raise socket.timeout("simulated transient write failure")
         n = len(data)
         st = self.wchunk_style
         if st == 1 and n > 1:
@@ -178,7 +187,7 @@ def gen_case(sim):
             wprog.append(["write", (0, 1, 2, 10, 16, 17, 100, 8192, 20000)[sim.choose(9)], sim.choose(1000),
                           ("mixed", "lf-only", "none")[sim.choose(3)], bool(sim.choose(4) == 0)])
         else:
-            wprog.append(["flush"])
+            wprog.append(["flush", bool(sim.choose(4) == 0)])
     return {"family": fam, "kind": kind, "size": size, "style": style, "data_seed": sim.choose(1000),
             "rmode": rmode, "wmode": WMODES[sim.choose(len(WMODES))],
             "bufsize": BUFSIZES[sim.choose(len(BUFSIZES))],
@@ -348,6 +357,14 @@ def check_writes(sim, case, f, sink_fn, settle=None):
                          "after step %d write(%d bytes) on a line-buffered file the stream holds %d bytes but the last newline written is at %d %s"
                          % (i, len(d), len(sink), nl, ctx))
         else:
+            if len(op) > 1 and op[1] and hasattr(f, "fail_next_write"):
+                # the stream fails once, before accepting anything; the application flushes again
+                f.fail_next_write = True
+                try:
+                    f.flush()
+                except OSError:
+                    sim.probe("flush_failed_and_retried")
+                f.fail_next_write = False
             f.flush()
             sink = prefix_check(i, "flush")
             if len(sink) != len(written):
